@@ -129,7 +129,7 @@ func (ev *evidence) addRun(rs *runStats) {
 		if k >= 2 || len(c.Samples) >= 12 {
 			break
 		}
-		c.Samples = append(c.Samples, map[string]any{"run": rs.Name, "path_inputs": readable(tr.Inputs), "observations": tr.Observe, "outcome": tr.Outcome})
+		c.Samples = append(c.Samples, map[string]any{"run": rs.Name, "path_inputs": readableDocs(tr.Inputs, tr.Docs), "observations": tr.Observe, "outcome": tr.Outcome})
 	}
 }
 
